@@ -10,6 +10,7 @@ BASE = dict(dm='G7', bc=.223, mv=2750.0, sh=2.0, look=0.0, zero=5 / 60, rel=0.0,
 
 WINDS = {
     'none': [],
+    'finite': [[15, 90, 100]],        # one reading that ends at 100 yd: calm beyond
     'cross': [[10, 90, None]],
     'cross15': [[15, 90, None]],
     'head': [[20, 180, None]],
